@@ -174,8 +174,9 @@ class CachedStore(Entity):
         self._misses += 1
         value = yield from self._backing_store.get(key)
 
-        if value is not None:
-            # Cache the value
+        if value is not None and key not in self._cache:
+            # Cache the value -- unless a write cached a newer one while the
+            # backing-store read was in flight (it must not be overwritten).
             self._cache_put(key, value)
 
         return value
